@@ -1074,3 +1074,56 @@ Definition run_conc_fan (inp : list Z) : list Z :=
       end
   | _ => bad_input
   end.
+
+(* ---- C11: close() from several threads ---- *)
+Require Import Mido.Model.ConcClose.
+(* [locking; nthreads; schedule...] -> [releases; closed; per thread: 1 when its close() has returned] *)
+Definition run_conc_close (inp : list Z) : list Z :=
+  match inp with
+  | lk :: nt :: sched =>
+      let '(s, ts) := krun (negb (lk =? 0)) (map Z.to_nat sched) kinit in
+      Z.of_nat (k_releases s) :: (if k_closed s then 1 else 0) ::
+      map (fun t => match ts t with KDone => 1 | _ => 0 end) (seq 0 (Z.to_nat nt))
+  | _ => bad_input
+  end.
+
+(* ---- C10: ParserQueue fed from several threads ---- *)
+Require Import Mido.Model.ConcPQ.
+Fixpoint in_pqops (n : nat) (l : list Z) : option (list qop * list Z) :=
+  match n with
+  | O => Some ([], l)
+  | S k =>
+      match l with
+      | 0 :: r => match in_msgs r with
+                  | Some (ms, r1) => match in_pqops k r1 with Some (os, r') => Some (QPut ms :: os, r') | None => None end
+                  | None => None
+                  end
+      | 1 :: r => match in_pqops k r with Some (os, r') => Some (QPoll :: os, r') | None => None end
+      | _ => None
+      end
+  end.
+Fixpoint in_pqprogs (n : nat) (l : list Z) : option (list (list qop) * list Z) :=
+  match n with
+  | O => Some ([], l)
+  | S k => match l with
+           | c :: r => match in_pqops (Z.to_nat c) r with
+                       | Some (os, r1) => match in_pqprogs k r1 with Some (ps, r') => Some (os :: ps, r') | None => None end
+                       | None => None
+                       end
+           | [] => None
+           end
+  end.
+(* [locking; nthreads; per thread: nops ops...; schedule...] -> the log (feeder, message)*, what each thread's polls returned, the queue *)
+Definition run_conc_pq (inp : list Z) : list Z :=
+  match inp with
+  | lk :: nt :: r =>
+      match in_pqprogs (Z.to_nat nt) r with
+      | Some (progs, sched) =>
+          let '(s, ts) := qrun (negb (lk =? 0)) (map Z.to_nat sched) (qinit (fun t => nth t progs [])) in
+          zlen (qlog s) :: flat_map (fun e => Z.of_nat (fst e) :: out_msg (snd e)) (qlog s) ++ [-9] ++
+          flat_map (fun t => zlen (qgot (ts t)) :: flat_map (fun g => match g with Some m => 1 :: out_msg m | None => [0] end) (qgot (ts t)) ++ [-9]) (seq 0 (length progs)) ++
+          out_msgs (qqueue s)
+      | None => bad_input
+      end
+  | _ => bad_input
+  end.
